@@ -470,6 +470,7 @@ fn overflow_grid(g: &mut Grid, tier: &str) {
     let results: Vec<(usize, String, i32)> = {
         let next = std::sync::atomic::AtomicUsize::new(0);
         let out = std::sync::Mutex::new(vec![]);
+        vrt::crash::idle(); // waiting on child processes is not a hang
         std::thread::scope(|s| {
             for _ in 0..16 {
                 s.spawn(|| loop {
